@@ -216,6 +216,40 @@ def execute(plan):
                     if np.max(np.abs(back2 - d[pos]) / d[pos]) > 1e-8:
                         viol("inverse", step, "which_distance(calc_path_loss(d)) != d for parameters %s" % st, rel="inverse_linear")
                         return
+        # distances as a 2-D array (e.g. base stations x users), including too-small ones: same law per element
+        if model != "hata":
+            lo, hi = (0, 3) if model == "metis" else (-3, 3)
+            d2 = 10 ** rs.uniform(lo, hi, size=(3, 4))
+            if model != "metis" and rs.rand() < 0.5:
+                d2[int(rs.randint(0, 3)), int(rs.randint(0, 4))] = 10 ** rs.uniform(-9, -5)     # certainly too small for most parameter sets
+            ref2 = reference_dB(model, st, plan["cfg"], d2, 0)
+            neg2 = ref2 < 0
+            tol2 = 0.011 if (model == "freespace" and st.get("n") == 2.0) else 1e-6
+            if np.any(np.abs(ref2) < 2 * tol2):
+                return           # a loss within the tolerance of 0 dB: which side of the policy it falls on is not defined
+            try:
+                got2 = obj.calc_path_loss_dB(d2.copy())
+                raised2 = None
+            except Exception as e:       # noqa: BLE001
+                got2, raised2 = None, e
+            if neg2.any():
+                bump(res["probes"], "too_small_distance_in_2d_array")
+                if policy:
+                    if raised2 is not None:
+                        viol("small_distance", step, "policy is clamp-to-0 dB but a 2-D distance array raised %s: %s" % (type(raised2).__name__, raised2), rel="policy_2d")
+                        return
+                    want2 = np.where(neg2, 0.0, ref2)
+                    if np.shape(got2) != d2.shape or np.max(np.abs(np.asarray(got2, dtype=float) - want2)) > tol2:
+                        viol("small_distance", step, "2-D distances with the clamp policy: loss %s, expected %s" % (
+                            np.round(np.asarray(got2, dtype=float), 3).tolist(), np.round(want2, 3).tolist()), rel="policy_2d")
+                        return
+                elif not isinstance(raised2, RuntimeError):
+                    viol("small_distance", step, "2-D distances with a too-small entry and policy 'raise': got %r instead of RuntimeError" % (raised2,), rel="policy_2d")
+                    return
+            else:
+                if raised2 is not None or np.shape(got2) != d2.shape or np.max(np.abs(np.asarray(got2, dtype=float) - ref2)) > tol2:
+                    viol("formula", step, "2-D distance array: %s" % (raised2 if raised2 is not None else "loss differs from the per-element loss"), rel="array_2d")
+                    return
         if model == "metis":
             # wall counts given as an array: same shape, and broadcast along a non-leading axis (one count per room)
             d2 = np.sort(10 ** rs.uniform(0, 3, size=(3, 4)), axis=1)
